@@ -20,8 +20,8 @@ class _Two(dict):
 
 
 PROP = "C06"
-GENERATED = ['ParserTables', 'SrcParser', 'SrcShape', 'TokLoop', 'DimFlags', 'ShapeLoop', 'ParseHelpers']  # generated files this check's tie depends on
-LEAN_MODULES = ["Properties.C06", "Properties.Prov.Parser", "Properties.Prov.Shape", "Properties.CoreTok", "Properties.CoreEval", "Properties.CoreShape", "Properties.CoreParse"]
+GENERATED = ['ParserTables', 'SrcParser', 'SrcShape', 'TokLoop', 'DimFlags', 'ShapeLoop', 'ParseHelpers', 'ParseLoop']  # generated files this check's tie depends on
+LEAN_MODULES = ["Properties.C06", "Properties.Prov.Parser", "Properties.Prov.Shape", "Properties.CoreTok", "Properties.CoreEval", "Properties.CoreShape", "Properties.CoreParse", "Properties.CoreParseLoop", "Properties.CoreExpr"]
 NEEDS_DTYPES = True
 RULE = (
     "corpus (witnesses of F6) first; exhaustive: every string of <=4 (quick) / <=5 (thorough) tokens over a 21-symbol alphabet "
